@@ -747,6 +747,24 @@ class Interp:
                 return a + b
             if isinstance(a, tuple) and isinstance(b, tuple):
                 return a + b
+        # set algebra (abstract sets are insertion-ordered lists when their elements are not hashable; dict views are lists)
+        if opn in ("BitAnd", "BitOr", "Sub", "BitXor") and isinstance(a, (set, frozenset, list)) and isinstance(b, (set, frozenset, list)) \
+                and (isinstance(a, (set, frozenset)) or isinstance(b, (set, frozenset)) or text.count(".keys()") or "{" in text):
+            la, lb = list(a), list(b)
+            inb = lambda x: any(self._eq(x, y) for y in lb)
+            ina = lambda x: any(self._eq(x, y) for y in la)
+            if opn == "BitAnd":
+                res = [x for x in la if inb(x)]
+            elif opn == "Sub":
+                res = [x for x in la if not inb(x)]
+            elif opn == "BitOr":
+                res = la + [y for y in lb if not ina(y)]
+            else:
+                res = [x for x in la if not inb(x)] + [y for y in lb if not ina(y)]
+            try:
+                return set(res)
+            except TypeError:
+                return res
         if opn == "Mult" and isinstance(a, str) and isinstance(b, int):
             return a * b
         if opn == "Mult" and isinstance(a, str) and isinstance(b, (Opaque, Sym)):
